@@ -30,6 +30,7 @@ def gen_script(rng):
     uid = 0
     tests = []
     pending = []      # (uid, release_at_test)
+    alive = []        # (uid, api) of threads left running so far
     for t in range(ntests):
         actions = []
         # release threads scheduled for this test: before this test starts its own threads (their idents are then
@@ -39,12 +40,18 @@ def gen_script(rng):
             if at == t:
                 release.append(["finish", u])
                 pending.remove((u, at))
+                alive[:] = [x for x in alive if x[0] != u]
         release_late = rng.random() < 0.5
         if not release_late:
             actions += release
+        # a thread left behind by an earlier test changes its name during this one (a worker renames itself, a
+        # low-level thread registers with `threading`): across the ignore patterns in either direction
+        for u, api in alive:
+            if (release_late or ["finish", u] not in release) and rng.random() < 0.25:
+                actions.append(["rename", u, rng.choice(["busy-%d", "ign-%d", "idle-%d", "xw%d"]) % u])
         for _ in range(rng.choice([0, 1, 1, 2, 3])):
             api = rng.choice(["threading", "_thread", "_thread_ct", "threading_falsy"])
-            name = rng.choice(["worker-%d", "ign-%d", "w%d", "ab=ab-%d", "IGN-%d"]) % uid
+            name = rng.choice(["worker-%d", "ign-%d", "w%d", "ab=ab-%d", "IGN-%d", "bg-ign-%d", "xw%d", "idle-%d"]) % uid
             if rng.random() < 0.2:
                 name = rng.choice(["pool", "ign-pool"])      # several threads may carry the same name
             actions.append(["start", uid, api, name])
@@ -53,6 +60,9 @@ def gen_script(rng):
                 actions.append(["finish", uid])
             elif fate == "leak-later" and t + 1 < ntests:
                 pending.append((uid, rng.randint(t + 1, ntests - 1)))
+                alive.append((uid, api))
+            elif api != "_thread_ct":
+                alive.append((uid, api))
             uid += 1
         if release_late:
             actions += release
@@ -60,8 +70,10 @@ def gen_script(rng):
             # the test skips itself after what it did (the check for threads left behind runs all the same)
             actions.append(["skip"])
         tests.append({"id": t, "actions": actions})
-    # --ignore-new-thread may be given several times: each pattern stands alone (match mode)
-    ignore = rng.choice([["ign"], ["ign"], ["(?i)ign", "W\\d"], ["(w)orker-9", "(\\w+)=\\1"], ["ign", "w\\d+$"], ["IGN", "ign"]])
+    # --ignore-new-thread may be given several times: each pattern stands alone (match mode: a name that merely
+    # contains the pattern is not ignored)
+    ignore = rng.choice([["ign"], ["ign"], ["(?i)ign", "W\\d"], ["(w)orker-9", "(\\w+)=\\1"], ["ign", "w\\d+$"], ["IGN", "ign"],
+                         ["idle", "Dummy-\\d{6,}$"], ["ign", "Dummy-\\d{6,}$"]])
     return {"tests": tests, "ignore": ignore}
 
 
@@ -111,6 +123,18 @@ def directed_scripts():
                           {"id": 1, "actions": [["start", 3, "threading_falsy", "ign-worker"], ["start", 4, "threading_falsy", "bg"],
                                                   ["start", 5, "threading", "a"], ["start", 6, "threading", "a"]]}],
                 "ignore": ["ign"]})
+    # names that contain an ignore pattern without starting with it; threads that change their names across the
+    # patterns while a later test runs (a low-level thread is "Dummy-<ident>" until it registers with `threading`)
+    out.append({"tests": [{"id": 0, "actions": [["start", 0, "threading", "bg-ign-0"], ["start", 1, "threading", "xw1"],
+                                                  ["start", 2, "threading", "ign-2"]]},
+                          {"id": 1, "actions": [["start", 3, "threading", "pool-ign"], ["start", 4, "_thread", "x"]]}],
+                "ignore": ["ign", "w\\d+$"]})
+    out.append({"tests": [{"id": 0, "actions": [["start", 0, "threading", "idle-0"], ["start", 1, "_thread", "x"],
+                                                  ["start", 2, "threading", "busy-2"]]},
+                          {"id": 1, "actions": [["rename", 0, "busy-0"], ["rename", 1, "x"], ["rename", 2, "idle-2"]]},
+                          {"id": 2, "actions": [["start", 3, "_thread", "x"], ["rename", 3, "x"]]},
+                          {"id": 3, "actions": [["rename", 0, "idle-0"]]}],
+                "ignore": ["idle", "Dummy-\\d{6,}$"]})
     return out
 
 
@@ -125,15 +149,15 @@ def run(ctx):
     infos = []
     for script, (events, out) in zip(scripts, reals):
         # threads started through _thread have no name: the runner sees "Dummy-<ident>"
-        names = {a[1]: (a[3] if a[2] in ("threading", "threading_falsy") else "Dummy") for t in script["tests"]
-                 for a in t["actions"] if a[0] == "start"}
+        pats = script.get("ignore", ["ign"])
         hist = []
         ident_of = {}
         for e in events:
             if e["ev"] == "start":
                 ident_of[e["uid"]] = e["ident"]
-                ignored = any(re.match(pat, names[e["uid"]]) for pat in script.get("ignore", ["ign"]))
-                hist.append(["start", e["uid"], e["ident"], bool(ignored)])
+                hist.append(["start", e["uid"], e["ident"], any(re.match(pat, e["name"]) for pat in pats)])
+            elif e["ev"] == "rename":
+                hist.append(["rename", e["uid"], any(re.match(pat, e["name"]) for pat in pats)])
             elif e["ev"] == "finish":
                 hist.append(["finish", e["uid"]])
             elif e["ev"] == "tstart":
